@@ -4,7 +4,8 @@ from ..core import hx, lst, WILD
 from ..ref import P, L, to32, le
 
 REQUIRED = ['n=0', 'n=1', 'straus', 'pippenger', 'corrupt:none', 'corrupt:msg', 'corrupt:key', 'corrupt:R', 'corrupt:S',
-            'corrupt:S+l', 'corrupt:R-offcurve', 'shuffled', 'duplicated', 'len-mismatch', 'pos:first', 'pos:last', 'many', 'cancelling', 'dup-corrupted']
+            'corrupt:S+l', 'corrupt:R-offcurve', 'shuffled', 'duplicated', 'len-mismatch', 'pos:first', 'pos:last', 'many', 'cancelling', 'dup-corrupted',
+            'adaptive-shift', 'z-observed', 'z-sensitivity:msg', 'z-sensitivity:key', 'z-sensitivity:R', 'z-sensitivity:S']
 
 
 def okerr(x):
@@ -63,6 +64,103 @@ def emit(ctx, entries, cls):
             lst([e.key.hex() for e in entries]), expect=[exp, exp], cls=cls)
 
 
+def parse_z(tok):
+    if not (tok.startswith('[') and tok.endswith(']')):
+        return None
+    body = tok[1:-1]
+    return [le(bytes.fromhex(x)) for x in body.split(';')] if body else []
+
+
+def z_sane(z, n):
+    if z is None:
+        return 'HARNESS coefficient hook not reached'
+    if len(z) != n:
+        return 'the hook saw %d coefficients for a batch of %d' % (len(z), n)
+    if any(x % L == 0 for x in z):
+        return 'a batch coefficient is zero: that entry is not checked at all'
+    if len(set(x % L for x in z)) != len(z):
+        return 'two entries share a batch coefficient: exchanging their S halves would cancel'
+    return None
+
+
+def gen_adaptive(ctx, base, ncl):
+    """An attacker who may look at the coefficients (through the hook) shifts two S values so that sum z_i S_i stays
+    put.  Both shifted signatures are individually invalid, so the batch must reject: that needs the coefficients of
+    the second call to move with S.  Decided on the batch verdict; the coefficients are only the attacker's input."""
+    rng = ctx.rng
+    n = len(base)
+    i, j = rng.sample(range(n), 2)
+    k = rng.choice([1, 2, L - 1, rng.randrange(1, L), rng.randrange(1, 1 << 64)])
+    si, sj = le(base[i].sig[32:]), le(base[j].sig[32:])
+
+    def judge(toks, n=n, i=i, j=j, k=k, si=si, sj=sj, base=base):
+        if len(toks) < 6:
+            return 'too few output tokens: %r' % (toks,)
+        if toks[0] != 'ok':
+            return 'honest batch rejected'
+        z0 = parse_z(toks[1])
+        e = z_sane(z0, n)
+        if e:
+            return e
+        want_i = base[i].sig[:32] + to32((si + z0[j] * k) % L)
+        want_j = base[j].sig[:32] + to32((sj - z0[i] * k) % L)
+        if toks[2] != want_i.hex() or toks[3] != want_j.hex():
+            return 'HARNESS shifted signatures differ from the model: %s %s' % (toks[2], toks[3])
+        for e_, sg in ((base[i], want_i), (base[j], want_j)):
+            if ref.ed_verify_predicate(e_.key, e_.msg, sg):
+                return 'HARNESS shifted signature still valid'
+        if toks[4] != 'err':
+            return ('batch accepted two individually invalid signatures after S_%d += z_%d*k, S_%d -= z_%d*k '
+                    '(coefficients did not move with S: %s)' % (i, j, j, i, 'same z' if toks[5] == toks[1] else 'z changed'))
+        return None
+
+    ctx.add('sig.batchatk', lst([hx(e.msg) for e in base]), lst([e.sig.hex() for e in base]), lst([e.key.hex() for e in base]),
+            '#%d' % i, '#%d' % j, to32(k).hex(), expect=judge, cls=ncl + ['adaptive-shift', 'z-observed'])
+
+
+def gen_sensitivity(ctx, base, ncl, keys):
+    """The coefficients are 'bound to all H(R||A||M) and all S': observed at the hook, they must move when any single
+    component of any entry changes, and must not move when nothing does."""
+    rng = ctx.rng
+    n = len(base)
+    seen = {}
+
+    def emitz(entries, tag, cls):
+        exp = okerr(all(e.ok for e in entries))
+
+        def judge(toks, tag=tag, exp=exp, m=len(entries)):
+            if len(toks) < 2:
+                return 'too few output tokens: %r' % (toks,)
+            if any(e.hard_err for e in entries):
+                return None if toks[0] == 'err' else 'output 0: expected err got %s' % toks[0]
+            z = parse_z(toks[1])
+            e = z_sane(z, m)
+            if e:
+                return e
+            if toks[0] != exp:
+                return 'output 0: expected %s got %s' % (exp, toks[0])
+            if tag == 'base':
+                seen['base'] = toks[1]
+            elif tag == 'again':
+                if seen.get('base') != toks[1]:
+                    return 'the same batch gave different coefficients on a second call'
+            elif seen.get('base') == toks[1]:
+                return 'coefficients unchanged although the %s of one entry changed' % tag
+            return None
+        ctx.add('sig.batchz', lst([hx(e.msg) for e in entries]), lst([e.sig.hex() for e in entries]),
+                lst([e.key.hex() for e in entries]), expect=judge, cls=cls)
+
+    emitz(base, 'base', ncl + ['z-observed'])
+    emitz(base, 'again', ncl + ['z-observed'])
+    for kind in ('msg', 'key', 'R', 'S'):
+        i = rng.randrange(n)
+        b = list(base)
+        b[i] = corrupt(rng, b[i], kind, keys)
+        if b[i].sig == base[i].sig and b[i].msg == base[i].msg and b[i].key == base[i].key:
+            continue
+        emitz(b, kind, ncl + ['z-sensitivity:' + kind])
+
+
 def gen(ctx, sizes, reps):
     rng = ctx.rng
     keys = []
@@ -90,6 +188,10 @@ def gen(ctx, sizes, reps):
                     rng.shuffle(b)
                     emit(ctx, b, ncl + ['corrupt:' + kind, 'shuffled'])
                     emit(ctx, b + [b[0]], ncl + ['corrupt:' + kind, 'duplicated'])
+            gen_sensitivity(ctx, base, ncl, keys)
+            if n >= 2:
+                gen_adaptive(ctx, base, ncl)
+                gen_adaptive(ctx, base, ncl)
             if n >= 2:
                 # corruptions that cancel in an unweighted sum: two entries exchange their S halves, or S_i += d, S_j -= d
                 i, j = rng.sample(range(n), 2)
@@ -159,7 +261,7 @@ def task(prop, seed, size, cfgbins, sizes=(0, 1, 2, 3, 7), reps=1):
 
 def run(prop, tier, seed, t0):
     from .. import plan
-    cfgs = ['simd', 'serial32'] if tier == 'quick' else plan.ALL_CFGS
+    cfgs = ['simd', 'serial32', 'fiat64'] if tier == 'quick' else plan.ALL_CFGS
     bins, notes, failed = plan.bins_for(cfgs, ('rel', 'chk') if tier == 'thorough' else ('rel',))
     if failed:
         return plan.fail_build(prop, failed)
@@ -178,6 +280,8 @@ def run(prop, tier, seed, t0):
                        rule='batches of honest Ed25519 signatures at sizes on both sides of the Straus/Pippenger and window switches, '
                             'with none / one (first, middle, last) / many / all entries corrupted in message, key, R, S, S+l, '
                             'off-curve R; each batch also shuffled, with a duplicated entry, called twice; slice-length mismatches; '
+                            'the coefficients z_i observed at a hook: nonzero, distinct, repeatable, moving with every single component; '
+                            'an adaptive attacker reading them shifts two S values so that sum z_i S_i is unchanged and the batch must still reject; '
                             'expected = conjunction of the single-verification predicate; every dispatch target forced',
                        required_classes=REQUIRED,
                        assumptions=['inputs stay in the property domain: keys and R canonical encodings of prime-order points',
